@@ -464,7 +464,7 @@ fn c14_cases(base: &ServerSpec, base_run: &ServerRun, rng: &mut ChaCha8Rng) -> V
     let mut mk = |what: String, must_err: bool, after: usize, action: Action, out: &mut Vec<C14Case>| {
         let mut s = base.clone();
         s.explicit = d.clone();
-        s.injections = vec![Injection { after_events: after, action }];
+        s.injections = vec![Injection { after_events: after, action, burst: false }];
         out.push(C14Case { spec: s, what, must_err });
     };
     for p in 0..n {
@@ -723,7 +723,12 @@ impl Check for C15 {
         let total = base_run.decisions.len();
         let mut i = 0u64;
         for p in 0..n {
-            for kk in 0..=total {
+            for kk2 in 0..=(2 * total + 1) {
+                // every point once quiesced, once in the same step as the preceding event (burst)
+                let (kk, burst) = (kk2 / 2, kk2 % 2 == 1);
+                if burst && kk == 0 {
+                    continue;
+                }
                 i += 1;
                 if i % 4 != shard {
                     continue;
@@ -733,7 +738,7 @@ impl Check for C15 {
                 }
                 let mut s = base.clone();
                 s.explicit = base_run.decisions.clone();
-                s.injections = vec![Injection { after_events: kk, action: Action::Cancel { party: p, comp: 1 } }];
+                s.injections = vec![Injection { after_events: kk, action: Action::Cancel { party: p, comp: 1 }, burst }];
                 // in a share of the runs a constants (or run) RPC of this computation additionally fails:
                 // cancel must stay synchronised with tasks that can still notify the destination
                 if i % 3 == 0 {
@@ -760,8 +765,8 @@ impl Check for C15 {
                 let c = run.calls.iter().find(|c| c.what == "cancel");
                 out.count(&format!("cancel_result:{:?}", c.and_then(|c| c.ok)), 1);
                 let prev = base_run.decisions.get(kk.wrapping_sub(1)).map(|d| d.split(' ').next().unwrap_or("").to_string()).unwrap_or_else(|| "start".into());
-                out.count(&format!("cancel_after:{prev}"), 1);
-                out.distinct.push(entropy::mix(base.seed, p as u64, kk as u64));
+                out.count(&format!("cancel_after:{prev}{}", if burst { "(burst)" } else { "" }), 1);
+                out.distinct.push(entropy::mix(base.seed, p as u64, kk2 as u64));
                 out.violations.extend(c15_oracle(&s, &run));
                 if out.samples.is_empty() && kk == total / 2 {
                     out.samples.push(json!({"cancel_party": p, "after_event": kk, "cancel_result": c.map(|c| format!("{:?} {}", c.ok, c.detail)), "run": sample_of(&s, &run)}));
@@ -795,6 +800,16 @@ fn c17_oracle(spec: &ServerSpec, run: &ServerRun) -> Vec<Violation> {
     for p in 0..spec.n {
         if run.max_overlap[p] > spec.concurrency[p] {
             v.push(viol("concurrency-limit-exceeded", "concurrency-limit-exceeded", format!("party {p} held {} permits at once, limit {}", run.max_overlap[p], spec.concurrency[p]), &sv));
+        }
+    }
+    for p in 0..spec.n {
+        if run.max_led_active[p] > spec.concurrency[p] {
+            v.push(viol(
+                "concurrency-limit-exceeded",
+                "concurrency-limit-exceeded",
+                format!("party {p} had {} led computations between 'run requested' and 'state machine stopped' at the same time, limit {}", run.max_led_active[p], spec.concurrency[p]),
+                &sv,
+            ));
         }
     }
     // permits at quiescence
@@ -886,6 +901,7 @@ fn c17_gen(seed: u64, k: u64) -> ServerSpec {
             spec.injections.push(Injection {
                 after_events: rng.random_range(0..30),
                 action: Action::Cancel { party: rng.random_range(0..n), comp: ps.comp },
+                burst: rng.random_bool(0.3),
             });
         }
         _ => {}
@@ -936,7 +952,7 @@ impl Check for C17 {
             }
             out.count(&format!("policies={}", spec.policies.len()), 1);
             out.count("max_overlap_sum", run.max_overlap.iter().sum::<usize>() as u64);
-            if run.max_overlap.iter().zip(&spec.concurrency).any(|(a, b)| a == b) {
+            if run.max_led_active.iter().zip(&spec.concurrency).any(|(a, b)| a == b) {
                 out.count("runs_reaching_the_limit", 1);
             }
             out.distinct.push(coord_hash(&run) ^ spec.seed);
